@@ -258,6 +258,33 @@ def run_sandbox(case):
     return res
 
 
+class SandboxHung(BaseException):
+    """The sandbox side of a case did not finish in time (BaseException: the sandbox reports `Exception`s as the
+    student's, this one has to come out)."""
+
+
+def run_sandbox_guarded(case, seconds=20):
+    """run_sandbox under an alarm.  The reference ran first and ENDED; when the sandbox takes another path than plain
+    CPython (that is what a defect is) the rest of the program - or what the shrinker left of it - is code that the
+    reference never executed, and nothing says that it terminates.  -> run_sandbox's result or {"hung": seconds}."""
+    import signal
+    import threading
+    if threading.current_thread() is not threading.main_thread():
+        return run_sandbox(case)
+
+    def on_alarm(*a):
+        raise SandboxHung()
+    old = signal.signal(signal.SIGALRM, on_alarm)
+    signal.setitimer(signal.ITIMER_REAL, seconds)
+    try:
+        return run_sandbox(case)
+    except SandboxHung:
+        return {"hung": seconds, "calls": []}
+    finally:
+        signal.setitimer(signal.ITIMER_REAL, 0)
+        signal.signal(signal.SIGALRM, old)
+
+
 # --------------------------------------------------------------------------
 # the property
 
@@ -313,6 +340,10 @@ def oracle(case, refres, sb):
     """None, or (signature, what).  `refres` is the traced unmodified run, `sb` the sandbox run."""
     if "harness_error" in refres:
         raise RuntimeError(refres["harness_error"])
+    if "hung" in sb:
+        return ({"kind": "sandbox-does-not-finish"},
+                "the program ended in plain CPython (outcome %r) and was still running in the sandbox after %s s" % (
+                    refres.get("outcome"), sb["hung"]))
     if "escaped" in sb:
         return {"kind": "escaped", "cls": sb["escaped"]}, "run() let %s escape" % sb["escaped"]
     ev = refres["events"]
